@@ -171,7 +171,7 @@ def main():
     corpus = props.corpus_cases(prop)
     gen = P["gen"](rng, budget, tier)
     cases = number(dedup(corpus + gen))
-    model = run_model(drv, cases)
+    model = run_model(drv, [c for c in cases if not c.tags.get("nomodel")])
     cli = [c for c in cases if c.entry == "main"]
     lib = [c for c in cases if c.entry != "main"]
     impl = {}
@@ -189,6 +189,13 @@ def main():
     for c in cases:
         m = model.get(c.id)
         i = impl.get(c.id)
+        if c.tags.get("nomodel"):
+            # too large for the extracted model (unary offsets): decided by the oracles only
+            if i is None:
+                disagreements.append((c, None, None, "no result from implementation"))
+            else:
+                nontrivial.add(c.key())
+            continue
         if m is None or i is None:
             disagreements.append((c, m, i, "no result from %s" % ("model" if m is None else "implementation")))
             continue
@@ -268,7 +275,12 @@ def main():
                             "log": cinfo["log"][-2000:], "theorem": cinfo["theorems"] or "Pins/%s.v" % prop}, False))
 
     # evidence
-    samples = [dict(c.to_json(), model_class=model[c.id][0], model_stdout_hex=model[c.id][1].hex())
+    def _short(j):
+        for k in ("stdin_hex", "stdin"):
+            if len(j.get(k, "")) > 400:
+                j[k] = j[k][:400] + "...(%d chars)" % len(j[k])
+        return j
+    samples = [_short(dict(c.to_json(), model_class=model[c.id][0], model_stdout_hex=model[c.id][1].hex()[:400]))
                for c in cases[:3] + cases[len(corpus):len(corpus) + 3] if c.id in model][:6]
     lem = count_lemmas(prop)
     cov = {
